@@ -10,7 +10,18 @@ import (
 // hostileStream derives the hostile byte string of a step from (N, Seed).
 func (x *TExec) hostileStream(c *tClient, st *TStep) ([]byte, string) {
 	r := &prng{s: st.Seed*104729 + uint64(st.N)}
-	switch st.N % 6 {
+	switch st.N % 7 {
+	case 6:
+		// complete frames around and above the server's inbound buffer (1600 bytes by default)
+		sizes := []int{1580, 1592, 1596, 1597, 1600, 1601, 1604, 1700, 2000, 4016, 16384, 65535}
+		n := sizes[r.n(len(sizes))]
+		if r.n(2) == 0 {
+			return ref.EncodeChannelData(0x4000+uint16(r.n(100)), synth(n, r.next(), ""), true), "oversize-complete-frame"
+		}
+		m := &ref.Msg{Method: ref.MethodSend, Class: ref.ClassIndication, TxID: c.nextTx()}
+		m.Add(ref.AttrData, synth(min(n, 65000), r.next(), ""))
+
+		return m.Encode(), "oversize-complete-frame"
 	case 0:
 		return synth(r.n(200), r.next(), ""), "random-bytes"
 	case 1:
